@@ -14,7 +14,7 @@ CHECKS = {
                 text="sort_as_subsets is proved for every finite graph and item order (67 obligations from the current source) and find_cycles is proved SOUND (every reported node is on a cycle, for any transitive relation containing the edges; 64 obligations): each yielded subset is exactly the ready items in input order, exhaustion emits every item once with predecessors strictly earlier, and exhaustion is impossible while a non-empty pred-closed set exists; at the raise the remaining set is a non-empty pred-closed subset (cycle by the Lean lemma). Bounded complement: same contract on all digraphs <= 3/4 nodes.",
                 note="assumed: finite sequences, value identity for elements; Lean lemma pred_closed_iff_cycle; termination not proved; sort is proved as the flattening of sort_as_subsets' contract (each item once, dependencies first; flat lemmas proved in Lean); completeness of find_cycles and _gen_edges are bounded only (exhaustive <= 3/4 nodes)"),
     "C25": dict(level="proof", technique=PROOF_TECH, design="DESIGN.md §5 C25",
-                text="QueuePool overflow accounting (_inc_overflow/_dec_overflow/_do_get/_do_return_conn) is proved in a monitor-with-interference model: other threads may change the shared counters and the queue at every statement outside the lock, at lock acquisition and around calls out of the pool, subject to the monitor invariant slots + pending == pool_size + _overflow, _overflow <= max_overflow, which is proved before every such point and at every exit (ghost claim accounting) — so slots <= pool_size + max_overflow under any schedule of these atomic steps; util.queue.Queue (put/get in all three blocking modes) against its representation invariant; plus a syntactic lock-discipline obligation.",
+                text="QueuePool overflow accounting (_inc_overflow/_dec_overflow/_do_get/_do_return_conn) is proved in a monitor-with-interference model: other threads may change the shared counters and the queue at every statement outside the lock, at lock acquisition and around calls out of the pool, subject to the monitor invariant slots + pending == pool_size + _overflow, _overflow <= max_overflow, which is proved before every such point and at every exit (ghost claim accounting) — so slots <= pool_size + max_overflow under any schedule of these atomic steps; util.queue.Queue (put/get in all three blocking modes) against its representation invariant, with a ghost monotonic clock: a timed get/put raises Empty/Full only once its whole timeout has elapsed, however often Condition.wait returns early (stolen or spurious wake-ups); plus a syntactic lock-discipline obligation. Bounded complement: sequential pool histories and real waiter threads on deterministic schedules with stolen wake-ups.",
                 note="interleaving granularity = statements outside locks / whole critical sections (no explicit schedule enumeration); assumed contracts on _create_connection, record.close() (Full path) and Condition.wait(); 'one connection never held by two checkouts' beyond the queue contract is not decided; other pool classes not covered"),
     "C34": dict(level="proof", technique=PROOF_TECH, design="DESIGN.md §5 C34",
                 text="every method of the _WeakInstanceDict container (add, replace, _add_unpresent, get, __getitem__, __contains__, contains_state, fast_get_state, safe_discard, _fast_discard, _manage_incoming/removed_state) is proved against a whole-map postcondition: add never overwrites a live different instance (raises, map unchanged), discards remove only the given state, every other key is untouched.",
@@ -38,13 +38,13 @@ CHECKS = {
                 text="SQLCompiler._truncated_identifier (length <= label_length, memo idempotent, earlier names keep their rendering, counters only grow), IdentifierPreparer._truncate_and_render_maxlen_name (length <= max_) and truncate_and_render_index/constraint_name (the kind-specific limit applies when the dialect defines it) are proved for all lengths with strings modelled by length. Bounded complement: naming conventions x dialect families x limits.",
                 note="strings by length only; md5/apply_map pure; preconditions label_length >= 6, max_ >= 8; uniqueness within a statement bounded only"),
     "C23": dict(level="proof", technique=PROOF_TECH, design="DESIGN.md §5 C23",
-                text="the context-manager protocol of transactions (TransactionalContext.__enter__ / __exit__ / _trans_ctx_check) is proved: entering links the transaction to its subject and remembers the enclosing one; leaving restores the enclosing link and clears its own on all 26 paths (commit, rollback, close, and exceptions out of any of them); using the subject inside a block whose transaction has ended raises. Bounded complement: ghost nested-transaction model after every step of every operation sequence on file-backed SQLite.",
-                note="abstract contracts on the concrete transaction classes' operations; Connection/RootTransaction/NestedTransaction methods bounded only; SQLite stands for a backend"),
+                text="the context-manager protocol of transactions (TransactionalContext.__enter__ / __exit__ / _trans_ctx_check) is proved: entering links the transaction to its subject and remembers the enclosing one; leaving restores the enclosing link and clears its own on all 26 paths (commit, rollback, close, and exceptions out of any of them); using the subject inside a block whose transaction has ended raises. The end of life of the concrete classes is proved too: RootTransaction._close_impl/_do_commit (detached and inactive on every exit) and NestedTransaction._deactivate_from_connection / _close_impl / _do_commit (inactive on every exit, popped off the connection, the enclosing savepoint becomes current) / _cancel (recursive, over a ghost chain of handles: every savepoint handle ends inactive and none stays current, also after out-of-order ends). Bounded complement: ghost nested-transaction model after every step of every operation sequence on file-backed SQLite, incl. recovery after a first deviation.",
+                note="abstract contracts on the operations called through the context manager; Connection.begin/begin_nested and NestedTransaction.__init__ (which builds the chain) bounded only; SQLite stands for a backend"),
     "C24": dict(level="proof", technique=PROOF_TECH, design="DESIGN.md §5 C24",
-                text="the reset path is proved: _ConnectionFairy._reset leaves no open transaction for reset_on_return rollback/commit (or was told, under a call-site precondition, that the transaction is already reset) and DefaultDialect.reset_isolation_level restores the engine-wide level; ghost txn_open / iso_level per DBAPI connection. Bounded complement: all pool histories on a fake DBAPI.",
+                text="the reset path is proved: _ConnectionFairy._reset leaves no open transaction for reset_on_return rollback/commit (or was told, under a call-site precondition, that the transaction is already reset) and DefaultDialect.reset_isolation_level restores the engine-wide level; DefaultDialect._set_connection_characteristics schedules exactly one reset finalizer per call behind those already pending (none when the call is refused); ghost txn_open / iso_level per DBAPI connection. Bounded complement: all pool histories on a fake DBAPI incl. multi-call / engine-level execution options.",
                 note="assumed driver contracts (do_rollback/do_commit/_assert_and_set_isolation_level); _finalize_fairy, checkin and Connection.close only in the bounded complement; server-side state outside"),
     "C26": dict(level="proof", technique=PROOF_TECH, design="DESIGN.md §5 C26",
-                text="the _ConnectionRecord layer is proved against a ghost 'closed' flag per DBAPI connection: __connect leaves no half-open record when the creator fails, invalidate/close/__close close what they drop, get_connection never hands out a closed connection nor one that predates a pool-wide or soft invalidation (it is closed and replaced by a fresh one; on failure the record holds nothing), checkin runs every finalizer and returns the record exactly once (never on a double check-in). Bounded complement: fault at every DBAPI call position of every pool history.",
+                text="the _ConnectionRecord layer is proved against a ghost 'closed' flag per DBAPI connection: __connect leaves no half-open record when the creator fails, invalidate/close/__close close what they drop, get_connection never hands out a closed connection nor one that predates a pool-wide or soft invalidation (it is closed and replaced by a fresh one; on failure the record holds nothing), checkin runs every finalizer and returns the record exactly once (never on a double check-in); QueuePool._do_get gives its overflow claim back when the creator fails with ANY exception class (shared with C25). Bounded complement: a fault of four exception classes (DBAPI error, disconnect, plain Exception, BaseException) at every DBAPI call position of every pool history.",
                 note="assumed externals (_invoke_creator, _close_connection, _return_conn); event hooks do not raise; checkout/_finalize_fairy/pre-ping retry loop bounded only"),
     "C27": dict(level="proof", technique=PROOF_TECH, design="DESIGN.md §5 C27",
                 text="the end of life of a root transaction is proved (RootTransaction._close_impl, _do_commit, _deactivate_from_connection, 148 obligations over all paths incl. the DBAPI rollback/commit raising): it is deactivated and `connection._transaction is not self` on every exit of rollback/close, so an invalidated connection never keeps a dead transaction that would block reconnecting. Bounded complement: a disconnect / ordinary error injected at every DBAPI call position of every history on a fake DBAPI, 4 handle_error listener modes.",
